@@ -109,6 +109,9 @@ func (c *Client) yield(ctx context.Context, verb string, gvk schema.GroupVersion
 	if err := ctx.Err(); err != nil {
 		return o, aux, err
 	}
+	if o == sim.ErrBefore || o == sim.Conflict {
+		c.Store.LogInjected(c.caller(ctx), verb, gvk, ns, name, o.String())
+	}
 	return o, aux, nil
 }
 
